@@ -185,6 +185,12 @@ def roundtrip(x, p):
             for f in os.listdir(d):
                 os.remove(os.path.join(d, f))
             os.rmdir(d)
+    # --- writing is not an edit: the cart object is as it was (it may be
+    # saved again, as .p8 or .p8.png, or edited further)
+    for name, lo, hi, width in SECS:
+        now = getattr(g, name)._data
+        x.check('writing leaves the cart\'s ' + name + ' region as it was',
+                len(now) == hi - lo and bytes(now) == before[name])
     # --- memory layout: pixel k carries byte k of gfx|map|gff|music|sfx|...
     x.check('row count', len(new_rows) == H_)
     conds = []
